@@ -17,6 +17,10 @@
      1294 the case does not satisfy the hypotheses of recover_totals (distinct ids/keys, acceptable resources, admissible
           order, totals within int64) - the harness built an inadmissible replay
      1210 an application's set of allocations or of unbound asks in B differs from A's, or a recovered allocation is missing from B's requests map
+     1251 finding C12-gang-app-rejected-on-recovery: a force-created (recovering) gang application is rejected because its
+          placeholder ask does not fit the CURRENT queue maximum (AddApplication applies the task-group check to
+          recovering applications); its allocations and asks are then rejected too. For such a case the totals are not
+          compared; every other rejection is still reported (1201)
      1250 crash point inside the window of finding 12 (a foreign allocation re-sent with another node id is listed on
           two nodes of A; the replay reproduces the orphan on B) - nothing else is evaluated for the case
    The comparison with A (1202-1205) is made when A's own books agree (hypothesis books_agree of recover_matches_old:
@@ -148,10 +152,28 @@ Fixpoint cont_steps (i : N) (l : list ostep) : list (N * N) :=
                              flat_map (new_alloc_fits (st_obs st)) (st_events st))
       ++ cont_steps (i + 1) t
   end.
-Fixpoint replay_steps (i : N) (l : list ostep) : list (N * N) :=
+(* window of finding C12-gang-app-rejected-on-recovery: the applications rejected because the placeholder ask does not
+   fit a queue maximum of the restarted core *)
+Definition gang_rejected (pre : ostate) (st : ostep) : list N :=
+  match st_op st with
+  | OpAppAdd app q _ true _ (Some ph) _ _ _ =>
+      if existsb (fun e => match e with EAppRejected a => a =? app | _ => false end) (st_events st) &&
+         existsb (fun x => match find_queue pre x with
+                           | Some qq => match q_max qq with Some m => negb (FitInMaxUndef (Some m) (Some ph)) | None => false end
+                           | None => false end)
+                 (chain_of (S (length (s_queues pre))) (s_queues pre) q)
+      then [app] else []
+  | _ => []
+  end.
+Definition gang_window (h : ohistory) : list N := flat_map (fun p => gang_rejected (fst p) (snd p)) (hist_pairs h).
+Definition step_app (st : ostep) : N :=
+  match st_op st with OpAppAdd app _ _ _ _ _ _ _ _ => app | OpAlloc r => rq_app r | _ => 0 end.
+Fixpoint replay_steps (W : list N) (i : N) (l : list ostep) : list (N * N) :=
   match l with
   | [] => []
-  | st :: t => map (fun k => (i, k)) (flag (negb (st_panic st) && negb (existsb rejected_event (st_events st))) 1201) ++ replay_steps (i + 1) t
+  | st :: t => map (fun k => (i, k))
+                   (flag (negb (st_panic st) && (negb (existsb rejected_event (st_events st)) || memN (step_app st) W)) 1201)
+               ++ replay_steps W (i + 1) t
   end.
 
 (* window of finding 12: some foreign allocation key is listed by two nodes *)
@@ -162,10 +184,15 @@ Definition c12_check_case (h : N) (c : rccase) : list (N * N) :=
   let A := rc_a c in
   let B := last_obs (rc_replay c) in
   if dup_foreign A then [(h * 1000 + 499, 1250)] else
-  replay_steps (h * 1000) (h_steps (rc_replay c)) ++
+  let W := gang_window (rc_replay c) in
+  let A' := mkOS (s_nodes A) (filter (fun a => negb (memN (ap_id a) W)) (s_apps A)) (s_queues A) (s_total A) (s_nallocs A) (s_nph A)
+                 (s_nres A) (s_foreign A) (s_completed A) (s_rejected A) (s_ugm A) in
+  replay_steps W (h * 1000) (h_steps (rc_replay c)) ++
   map (fun k => (h * 1000 + 499, k))
-      ((if books_ok A then same_totals A B else []) ++ same_apps A B (rc_recq c) ++ same_items A B ++
-       flag (books_ok B) 1207 ++ model_check A B (h_steps (rc_replay c))) ++
+      (match W with
+       | [] => (if books_ok A then same_totals A B else []) ++ model_check A B (h_steps (rc_replay c))
+       | _ => [1251]
+       end ++ same_apps A' B (rc_recq c) ++ same_items A' B ++ flag (books_ok B) 1207) ++
   cont_steps (h * 1000 + 500) (h_steps (rc_cont c)).
 
 Fixpoint c12_cases (h : N) (l : list rccase) : list (N * N) :=
